@@ -82,7 +82,12 @@ def observe (db : Db) : Obs :=
 inductive Op where
   | edit (p : Path) (t : Text)        -- set_file_content p t; file system now has t at p
   | selectRoot (p : Path)             -- set_root_file p
+  | disk (p : Path) (t : Text)        -- the file changes on disk behind the host's back (an included file that is not open)
 deriving Repr
+
+def Op.isDisk : Op → Bool
+  | .disk _ _ => true
+  | _ => false
 
 structure St where
   fs : Fs := fun _ => none
@@ -94,6 +99,8 @@ def step (env : Env) (fuel : Nat) (s : St) : Op → St
     { s with fs := fun q => if q = p then some t else s.fs q, db := s.db.map (·.setContent p t) }
   | .selectRoot p =>
     { s with root := some p, db := s.db.bind (setRoot env s.fs fuel p) }
+  | .disk p t =>
+    { s with fs := fun q => if q = p then some t else s.fs q }
 
 def run (env : Env) (fuel : Nat) (h : List Op) : St := h.foldl (step env fuel) {}
 
